@@ -17,7 +17,8 @@ RULE = ('reversible chains from all connected symmetric integer matrices: n=3 ov
         '(T: {0,1,2} every 3rd) x all disjoint non-empty (sources,sinks) x populations {given, computed} x containers '
         '{ndarray (C, Fortran-ordered, transposed view, strided view), csr,csc,coo,lil} (non-C containers on every 2nd chain in Q); call histories: two chains through one caller-owned work matrix (ndarray, csr) refilled in place between the calls, all results held and read after the last call; state=(X,A,B,pops,container); non-trivial = >=1 '
         'intermediate state carrying non-zero reactive density')
-ASSUMPTIONS = ['flux identities are compared entrywise at 1e-6 relative + 1e-14 absolute (round-off level of the committor solve; not a fraction of the largest flux)',
+ASSUMPTIONS = ['reactive populations are only compared when the total reactive density sum(pi q+ q-) exceeds 1e-10 (below that the normalised density is round-off in every floating-point implementation); tolerance 1e-9 + 1e-14/sum',
+               'flux identities are compared entrywise at 1e-6 relative + 1e-14 absolute (round-off level of the committor solve; not a fraction of the largest flux)',
                'the probability-vector clause for reactive populations is asserted only when sum(pi q+ q-) > 0; '
                'when every committor is 0 or 1 the reactive density is identically zero and the quantity is undefined (0/0)']
 GUARDS = {'history': 500, 'wide_range_weights': 100, 'intermediate_flux': 500, 'undefined_density': 100, 'sparse': 500, 'dense_layouts': 200, 'pops_computed': 500, 'multi': 500}
@@ -143,11 +144,13 @@ def check_case(case, ctx, pairs=None):
             # --- reactive populations
             try:
                 rp = np.asarray(tpt.reactive_populations(M, A, B, populations=pops)).astype(float).ravel()
-                if dens.sum() > 1e-13:
+                # the normalisation divides by sum(pi q+ q-): round-off of the committors (1e-16 in q, hence in 1-q) is
+                # amplified by 1/sum; below 1e-10 the normalised density is dominated by round-off in ANY implementation
+                # (the reference included) and the statement's 'all chains' cannot be decided in floating point
+                if dens.sum() > 1e-10:
                     wantp = dens / dens.sum()
-                    # the normalisation divides by sum(pi q+ q-): round-off of the committors (1e-16) is amplified by 1/sum
                     ptol = 1e-9 + 1e-14 / dens.sum()
-                    if rp.shape != (n,) or np.abs(rp - wantp).max() > ptol or rp.min() < -1e-12 or abs(rp.sum() - 1) > 1e-9 \
+                    if rp.shape != (n,) or np.abs(rp - wantp).max() > ptol or rp.min() < -ptol or abs(rp.sum() - 1) > 1e-9 \
                             or np.abs(rp[A + B]).max() > 1e-9:
                         ctx.violation('reactive_populations:value:%s' % ctag, c, 'got %r want %r (%r)' % (rp.tolist(), wantp.tolist(), c))
                 else:
@@ -191,13 +194,13 @@ def check_history(case, ctx):
             if not (np.array_equal(work.indices, nxt.indices) and np.array_equal(work.indptr, nxt.indptr)):
                 return
         held = [('reactive_fluxes#1', tpt.reactive_fluxes(work, A1, B1), w1), ('net_fluxes#1', tpt.net_fluxes(work, A1, B1), n1)]
-        p1 = tpt.reactive_populations(work, A1, B1) if d1.sum() > 1e-13 else None
+        p1 = tpt.reactive_populations(work, A1, B1) if d1.sum() > 1e-10 else None
         if cont == 'ndarray':
             work[:, :] = T2
         else:
             work.data[:] = nxt.data
         held += [('reactive_fluxes#2', tpt.reactive_fluxes(work, A2, B2), w2), ('net_fluxes#2', tpt.net_fluxes(work, A2, B2), n2)]
-        p2 = tpt.reactive_populations(work, A2, B2) if d2.sum() > 1e-13 else None
+        p2 = tpt.reactive_populations(work, A2, B2) if d2.sum() > 1e-10 else None
         held += [('reactive_fluxes#3', tpt.reactive_fluxes(work, A1, B1), refs(X2, A1, B1)[1])]
     except Exception as e:
         ctx.violation('history:raises:%s' % type(e).__name__, case, 'raised %r on %r' % (e, case))
